@@ -181,8 +181,8 @@ func runCase(c Case) outcome {
 		}
 		_ = r.CConn.Close()
 		_ = r.SConn.Close()
-		if c.Shape == "resume-unknown" { // the server has forgotten the session: it answers SID_NOT_FOUND
-			security.ClearSessionCache()
+		if c.Shape == "resume-unknown" { // the server has forgotten THIS session (other cases run beside this one): it answers SID_NOT_FOUND
+			security.InvalidateSession(r.SNeg.SessionId)
 		}
 	}
 	// honest peer
